@@ -120,6 +120,26 @@ CLAIMED["C07"] = (
     "One genuine defect repaired (fix: e0ead44, keyword-only parameter lost after surplus positionals); known "
     "findings D15 and D7 listed in known_findings.json.")
 
+CLAIMED["C08"] = (
+    "Theorems (Properties/C08.v): a transition's guard list is satisfied iff every entry, evaluated in order, "
+    "holds, and fails at the first entry that does not (later ones are not evaluated); a cond entry holds iff "
+    "bool(value) is True and an unless entry iff it is False, for values of any type; the closure tree "
+    "build_expression builds from the AST has exactly Python's value, TypeError and left-to-right short-circuit "
+    "read sequence, for every expression of the grammar (n-ary and/or, not, names, literals, the six "
+    "comparisons - chained comparisons excepted, where the library reads the middle operand twice) and every "
+    "environment.  Tied to /repo three-way: random and small-exhaustive expression trees are spelled canonically "
+    "(evaluated by CPython's own eval as reference) and in a random alternative spelling (! ^ v, 0-2 spaces, "
+    "redundant parentheses, names containing v / not / and / or) given to a real transition as cond or unless, "
+    "the names being properties / methods / attributes of machine / model / listener, under several valuations "
+    "in turn; fired-or-not, TypeError and the read order are compared in coqc with the model, and the model's "
+    "Python semantics with CPython.  Malformed stream: unparsable text, constructs outside the grammar and "
+    "unknown names must raise InvalidDefinition at StateMachine().",
+    "Coq proof (guard conjunction; build_expression = Python evaluation) + three-way differential correspondence (library / model / CPython eval)",
+    "DESIGN.md 5 C08",
+    "Partial: the textual layer (regex rewriting of ! ^ v and CPython's parser/precedence) is validated by the "
+    "three-way correspondence, not proved; chained comparisons are proved only through the correspondence.  Two "
+    "genuine defects repaired (fix: 6fb3a72, fix: 198c81d).")
+
 PENDING_REASON = "check not built yet in this session (work in progress; see DESIGN.md 9 for the order of work)"
 
 ALL = [f"C{i:02d}" for i in range(1, 19)]
